@@ -16,11 +16,14 @@
        ([C09_aged_fails_once_then_free]) and the NEXT funded set is paid ([C09_aged_next_set_is_paid]).
    These are existence-of-a-run (liveness under a cooperative environment) theorems, proved by symbolic execution of
    the model over an arbitrary node (arbitrary attempt records, arbitrary list of failed/complete parts).
-   PARTIAL: the schedule is one cooperative schedule, not every fair one; in the per-case theorems "no part pending" is a
-   hypothesis, which [C09_never_wedged_whatever_the_pending_parts_do] discharges by letting the pending parts resolve
-   (in any way) before the probe arrives; attempt ids are assumed fresh (they are nanosecond timestamps in the code). *)
+   (3) ON EVERY SCHEDULE: [C09_cooperative_runs_never_fail] — no step of any cooperative history from any start image fails an
+       HTLC (see the comment there); with C06's termination theorems such a run ends with every HTLC answered, never by a failure.
+   PARTIAL: (2) exhibits one schedule per image class; in the per-case theorems "no part pending" is a hypothesis, which
+   [C09_never_wedged_whatever_the_pending_parts_do] discharges by letting the pending parts resolve (in any way) before the
+   probe arrives; (3) covers every schedule but assumes the environment cooperates and the interrupted attempt is younger
+   than the MPP timeout (the aged case is (2)'s exception); attempt ids are assumed fresh (nanosecond timestamps in the code). *)
 From Tramp Require Import Model.Base Model.Fee Model.Classify Model.Node Model.Provider Model.ProviderSys Model.Sys.
-From Tramp Require Import Proofs.SysBasics Proofs.SysShape Proofs.SysTheorems Proofs.SysReach Proofs.SysCalls Proofs.SysNode Proofs.SysSafety Proofs.SysRecover.
+From Tramp Require Import Proofs.SysBasics Proofs.SysShape Proofs.SysTheorems Proofs.SysReach Proofs.SysCalls Proofs.SysNode Proofs.SysSafety Proofs.SysRecover Proofs.SysCoop.
 
 Theorem C09_crash_image_is_a_start_image : forall c n t0 h0 a0 evs,
   node_ok n -> hist_wf false c (sys_start n t0 h0 a0) evs ->
@@ -49,6 +52,49 @@ Theorem C09_never_wedged_whatever_the_pending_parts_do : forall c n t0 h0 a0 h (
      free_view (ds (nd (fst (run c (sys_start n t0 h0 a0) evs)))) /\
      parts (nd (fst (run c (sys_start n t0 h0 a0) evs))) = resolve_with res 0 (parts n)).
 Proof. exact never_wedged_pending. Qed.
+
+(* ... and on EVERY schedule (Proofs/SysCoop.v). Take ANY history from ANY start image that is cooperative: every HTLC belongs to one
+   consistent acceptable set (same invoice [B] and amount [Dl], enough relative expiry, a declared total covering amount and
+   fee), no RPC fault is injected, the pay command ends only `complete`, and the clock does not advance — crashes at any point,
+   any interleaving of the node's answers, deliveries, polls, part resolutions (failing or completing) and HTLC arrivals, any
+   number of lifecycles and retries included. If the attempt ids handed out from [a0] on are unused and an interrupted attempt
+   in the image is younger than the MPP timeout, then NO step of the history fails any HTLC: the recovering lifecycle's
+   generation-guarded Free write is never refused (nobody else writes the record unless a part completed), the new attempt's
+   must-create write is never refused, the remaining MPP time is never zero. With C06 (a run that brings progress is finite and
+   can end only when no HTLC is held; answers go to all held HTLCs at once) every such run that has nothing left to do has
+   answered every HTLC it was given, and never with a failure: no start image makes the hash permanently failing, whatever
+   the schedule. What stays a hypothesis is the environment's cooperation itself. *)
+Theorem C09_cooperative_runs_never_fail : forall c B Dl n t0 h0 a0 evs,
+  mpp_ms c <> 0 -> node_ok n ->
+  (forall a, mem_att a (atts n) = true -> a < a0) ->
+  (forall a t g, ds n = Some (DPending a t, g) -> a < a0 /\ t0 - t < mpp_ms c) ->
+  hist_wf true c (sys_start n t0 h0 a0) evs -> Forall (ev_coop c B Dl) evs ->
+  forall o h m, In o (snd (run c (sys_start n t0 h0 a0) evs)) -> ~ In (OResp h (Fail m)) o.
+Proof. intros c B Dl n t0 h0 a0 evs Hm. exact (coop_runs_never_fail c B Dl Hm n t0 h0 a0 evs). Qed.
+
+(* one cooperative step: the invariant K is kept and nobody is failed, from every state reachable under the contract *)
+Theorem C09_cooperative_step : forall c B Dl s ev,
+  mpp_ms c <> 0 -> wreach true c s -> K c B Dl s -> ev_coop c B Dl ev ->
+  K c B Dl (fst (step c s ev)) /\ forall h m, ~ In (OResp h (Fail m)) (snd (step c s ev)).
+Proof.
+  intros c B Dl s ev Hm Hw HK Hev. split; [exact (K_step c B Dl Hm s ev Hw HK Hev)|].
+  intros h m. exact (coop_step_never_fails c B Dl Hm s ev h m Hw HK Hev).
+Qed.
+
+(* non-vacuity: the D4 image (Pending, no attempt record) with the schedule of C09_D4_image_recovers is such a history *)
+Example C09_cooperative_nonvacuous :
+  let c := {| mpp_ms := 60000; pol := {| fee_base := 0; fee_ppm := 0; pol_delta := 40 |}; cltv_delta := 6; retry_for := 60 |} in
+  let h := {| hid := 7; blob := [1]; deliver := 10; inv_amount := Some 10; amt := 10; total := 10; expiry := 1000; rel := 100%Z |} in
+  let n := {| ds := Some (DPending 3 1000, 0); atts := []; parts := []; payrun := 0 |} in
+  let evs := recover_schedule h ++ pay_schedule_from 5 0 [9] in
+  hist_wf true c (sys_start n 2000 0 4) evs /\ Forall (ev_coop c [1] 10) evs /\
+  (forall a t g, ds n = Some (DPending a t, g) -> a < 4 /\ 2000 - t < mpp_ms c).
+Proof.
+  split; [|split].
+  - vm_compute. repeat split; auto.
+  - repeat (constructor; [vm_compute; auto; try (eexists; reflexivity)|]). constructor.
+  - intros a t g H. inversion H; subst. vm_compute. split; reflexivity.
+Qed.
 
 (* the cases, each with its schedule *)
 Theorem C09_free_image_pays : forall c n t0 h0 a0 h p,
